@@ -246,7 +246,7 @@ def run(ctx, chk):
     # both directions for every integral type (shared with C17-b)
     import rules_c17
     from report import Sub
-    sub17 = Sub(chk, "C12-f", lambda r: r == "C17-b/byte-order" or r.startswith("C17-c/"))
+    sub17 = Sub(chk, "C12-f", lambda r: r in ("C17-b/byte-order", "C17-a/encoder-exhausts-value") or r.startswith("C17-c/"))
     rules_c17.run(ctx, sub17)
     chk.floor("integral codec byte-order obligations (shared with C17-b)", sub17.count, 10)
     # ... and the declared length prefix style is only as good as that style: the C16 clauses
